@@ -4,12 +4,8 @@ import json, os, subprocess
 V = os.path.dirname(os.path.dirname(os.path.abspath(__file__)))
 props = [json.loads(l) for l in open(os.path.join(V, "properties.jsonl"))]
 # id -> (technique, level text, level note, design ref)
-CLAIMED = {
- "C19": ("Coq proof of framing injectivity/commit binding + byte-exact model/impl correspondence (BLAKE3 of model stream == hash.Sum)",
-         "Theorems stream_inj, frame_prefix_free, digest_binding, commit_binding, idslice_data_inj and the five attack-shape corollaries are proved in Coq for every item sequence (no bound); the model's byte stream is compared byte-exactly (through BLAKE3) with pkg/hash on generated typed-value sequences for all 19 item kinds, and an adversarial-pair search looks for two distinct sequences with equal digests in the implementation.",
-         "Collision resistance of BLAKE3 appears only as an explicit disjunct. Payloads produced by CBOR/MarshalBinary are opaque bytes here (C15). Model is hand-written; tie = correspondence run + generated domain table.",
-         "DESIGN.md 3 C19"),
-}
+CLAIMED = {}
+exec(open(os.path.join(V, "lib", "claims.py")).read())
 hooks_commits = subprocess.run("git -C /repo log --format=%H --grep='^verif hook' ", shell=True, capture_output=True, text=True).stdout.split()
 man = {
  "version": 1,
